@@ -480,6 +480,28 @@ def bounded(tier, seed):
                 check({d1: w1, d2: w2}, 'two')
             if run.out_of_time():
                 break
+    # files WITHOUT a time-flag variable (built in memory before updatetflag, or stored without TFLAG): the times are decoded from
+    # SDATE / STIME / TSTEP, and a time window must still move the start date/time to the first selected step
+    for fname, kw in files[:2]:
+        f = IO.make_ioapi(P, seed=seed, **kw)
+        times0 = list(f.getTimes())
+        del f.variables['TFLAG']
+        if list(f.getTimes()) != times0:
+            continue            # (decoding from the attributes must agree with the flags: C12)
+        nt = kw['nt']
+        for w in (slice(2, None), slice(1, nt - 1), nt - 1, -1, slice(-2, None), 1):
+            def t(f=f, w=w, times0=times0, nt=nt):
+                g = f.sliceDimensions(TSTEP=w)
+                idx = np.atleast_1d(np.arange(nt)[w])
+                exp = [times0[i] for i in idx]
+                got = list(g.getTimes())
+                if got != exp:
+                    return 'file without TFLAG variable: decoded times %s expected %s' % ([x.isoformat() for x in got[:3]], [x.isoformat() for x in exp[:3]])
+                a = np.asarray(f.variables['V0'][...])[idx]
+                if not np.array_equal(np.asarray(g.variables['V0'][...]), a):
+                    return 'file without TFLAG variable: data of the retained steps differ'
+                return None
+            run.case('C11:%s:TSTEP window on a file without time-flag variable' % fname, (fname, repr(w)), t)
     return run.result(
         rule='real ioapi sliceDimensions with contiguous windows: XORIG/YORIG moved by first index x cell, VGLVLS equal to the matching sub-range, decoded times equal to the sub-range of the source times, '
              'TSTEP attribute kept, retained data identical, metadata coherent (C10 invariant), source unchanged',
